@@ -1,5 +1,7 @@
 #!/bin/sh
-# developer aid: run every claimed check (quick) in parallel and print one line each
+# developer aid: run every claimed check (default tier quick; pass "thorough" as $1) 4 at a time on the current tree and
+# print one line each.  Run this on the UNCHANGED tree before committing evidence.
 cd /verif
+TIER=${1:-quick}
 ids=$(python3 -c "import json;print(' '.join(c['property_id'] for c in json.load(open('MANIFEST.json'))['checks']))")
-for id in $ids; do ( bin/check $id > /tmp/runall.$id.out 2>&1; echo "$id exit=$? $(grep -c KNOWN-FINDING /tmp/runall.$id.out) known; $(head -1 /tmp/runall.$id.out | cut -c1-150)" ) & done; wait
+echo $ids | tr ' ' '\n' | xargs -P 4 -I{} sh -c 'bin/check {} --tier '$TIER' > /tmp/runall.{}.out 2>&1; echo "{} exit=$? $(grep -c KNOWN-FINDING /tmp/runall.{}.out) known; $(head -1 /tmp/runall.{}.out | cut -c1-150)"'
